@@ -132,7 +132,7 @@ LenBytes(b, o) ==
     LET x == Dec(Drop(b, o)) IN
     IF ~x.ok \/ ~IsSmall(x.v) THEN <<FALSE, o, <<>>>>
     ELSE LET len == ToNat(x.v) IN
-         IF o + x.n + len > Len(b) THEN <<FALSE, o, <<>>>>
+         IF len > Len(b) \/ o + x.n + len > Len(b) THEN <<FALSE, o, <<>>>>
          ELSE <<TRUE, o + x.n + len, SubSeq(b, o + x.n + 1, o + x.n + len)>>
 
 \* fixed number of bytes after offset o
@@ -168,8 +168,8 @@ ParseAck(b) ==
              count   == h[3][3]
              first   == Sub(largest, h[3][4])
          IN IF first.borrow = 1 THEN Bad
-            \* every further range needs at least two bytes
-            ELSE IF ~IsSmall(count) \/ 2 * ToNat(count) > Len(b) THEN Bad
+            \* every further range needs at least two bytes (and TLC integers are 32-bit)
+            ELSE IF ~IsSmall(count) \/ ToNat(count) > Len(b) THEN Bad
             ELSE LET m == AckMore(b, h[2], ToNat(count), first.v) IN
                  IF ~m[1] THEN Bad
                  ELSE LET rs == Reverse(<<<<first.v, largest>>>> \o m[3]) IN
